@@ -53,6 +53,10 @@ static void eb_mul_ltnaf_imp(eb_t r, const eb_t p, const bn_t k) {
 	int8_t tnaf[RLC_FB_BITS + 8], u;
 	eb_t t[1 << (RLC_WIDTH - 2)];
 	size_t l;
+	bn_t ord, m;
+
+	bn_null(ord);
+	bn_null(m);
 
 	if (eb_curve_opt_a() == RLC_ZERO) {
 		u = -1;
@@ -69,18 +73,25 @@ static void eb_mul_ltnaf_imp(eb_t r, const eb_t p, const bn_t k) {
 		/* Compute the precomputation table. */
 		eb_tab(t, p, RLC_WIDTH);
 
+		bn_new(ord);
+		bn_new(m);
+
+		/* [k]P depends on k modulo the group order h * r only, and the expansion
+		 * of a scalar below it fits the array (bn_rec_tnaf does not check the
+		 * length of what it writes). */
+		eb_curve_get_ord(ord);
+		eb_curve_get_cof(m);
+		bn_mul(ord, ord, m);
+		bn_abs(m, k);
+		bn_mod(m, m, ord);
+
 		/* Compute the w-TNAF representation of k. */
 		l = sizeof(tnaf);
-		bn_rec_tnaf(tnaf, &l, k, u, RLC_FB_BITS, RLC_WIDTH);
+		bn_rec_tnaf(tnaf, &l, m, u, RLC_FB_BITS, RLC_WIDTH);
 
-		n = tnaf[l - 1];
-		if (n > 0) {
-			eb_copy(r, t[n / 2]);
-		} else {
-			eb_neg(r, t[-n / 2]);
-		}
-
-		for (i = l - 2; i >= 0; i--) {
+		/* A multiple of the group order has no digits. */
+		eb_set_infty(r);
+		for (i = (int)l - 1; i >= 0; i--) {
 			eb_frb(r, r);
 
 			n = tnaf[i];
@@ -101,6 +112,8 @@ static void eb_mul_ltnaf_imp(eb_t r, const eb_t p, const bn_t k) {
 		RLC_THROW(ERR_CAUGHT);
 	}
 	RLC_FINALLY {
+		bn_free(ord);
+		bn_free(m);
 		/* Free the precomputation table. */
 		for (i = 0; i < (1 << (RLC_WIDTH - 2)); i++) {
 			eb_free(t[i]);
@@ -196,6 +209,10 @@ static void eb_mul_rtnaf_imp(eb_t r, const eb_t p, const bn_t k) {
 	int8_t tnaf[RLC_FB_BITS + 8], u;
 	eb_t t[1 << (RLC_WIDTH - 2)];
 	size_t l;
+	bn_t ord, m;
+
+	bn_null(ord);
+	bn_null(m);
 
 	if (eb_curve_opt_a() == RLC_ZERO) {
 		u = -1;
@@ -211,9 +228,21 @@ static void eb_mul_rtnaf_imp(eb_t r, const eb_t p, const bn_t k) {
 			eb_set_infty(t[i]);
 		}
 
+		bn_new(ord);
+		bn_new(m);
+
+		/* [k]P depends on k modulo the group order h * r only, and the expansion
+		 * of a scalar below it fits the array (bn_rec_tnaf does not check the
+		 * length of what it writes). */
+		eb_curve_get_ord(ord);
+		eb_curve_get_cof(m);
+		bn_mul(ord, ord, m);
+		bn_abs(m, k);
+		bn_mod(m, m, ord);
+
 		/* Compute the w-TNAF representation of k. */
 		l = sizeof(tnaf);
-		bn_rec_tnaf(tnaf, &l, k, u, RLC_FB_BITS, RLC_WIDTH);
+		bn_rec_tnaf(tnaf, &l, m, u, RLC_FB_BITS, RLC_WIDTH);
 
 		/* The Frobenius below squares x and y only. */
 		eb_norm(r, p);
@@ -473,6 +502,8 @@ static void eb_mul_rtnaf_imp(eb_t r, const eb_t p, const bn_t k) {
 		RLC_THROW(ERR_CAUGHT);
 	}
 	RLC_FINALLY {
+		bn_free(ord);
+		bn_free(m);
 		/* Free the precomputation table. */
 		for (i = 0; i < (1 << (RLC_WIDTH - 2)); i++) {
 			eb_free(t[i]);
